@@ -231,7 +231,11 @@ class HoeffdingOneSidedTest:
         :rtype: Tuple[bool, bool]
         """
         m = self.z.num_values - self.x.num_values
-        if self._check_mean_increase(m=m, alpha=self.alpha_d):
+        if m == 0:
+            # The cut point is the current instance: nothing to compare
+            drift = False
+            warning = False
+        elif self._check_mean_increase(m=m, alpha=self.alpha_d):
             drift = True
             warning = False
         elif self._check_mean_increase(m=m, alpha=self.alpha_w):
@@ -307,7 +311,11 @@ class HoeffdingTwoSidedTest(HoeffdingOneSidedTest):
         """
         drift_increase, warning_increase = super().check_cases()
         m = self.z.num_values - self.y.num_values
-        if self._check_mean_decrease(m=m, alpha=self.alpha_d):
+        if m == 0:
+            # The cut point is the current instance: nothing to compare
+            drift_decrease = False
+            warning_decrease = False
+        elif self._check_mean_decrease(m=m, alpha=self.alpha_d):
             drift_decrease = True
             warning_decrease = False
         elif self._check_mean_decrease(m=m, alpha=self.alpha_w):
@@ -428,11 +436,7 @@ class HDDMA(BaseSPC):
         self.test_type.update_cut_point(epsilon_z=epsilon_z)
 
         if self.num_instances >= self.config.min_num_instances:
-            drift_flag, warning_flag = (
-                self.test_type.check_cases()
-                if self.test_type.z.num_values != self.test_type.x.num_values
-                else (False, False)
-            )
+            drift_flag, warning_flag = self.test_type.check_cases()
             if drift_flag:
                 # Out-of-Control
                 self.drift = True
